@@ -52,7 +52,7 @@ def emit_cases(scratch, idx, consts, toggles=(), emit=True):
     return cases, res
 
 
-def run_cases(vh, scratch, cases, workers=12):
+def run_cases(vh, scratch, cases, workers=12, subcmd="wrap"):
     chunks = [cases[i::workers] for i in range(workers)]
     chunks = [c for c in chunks if c]
 
@@ -62,11 +62,11 @@ def run_cases(vh, scratch, cases, workers=12):
         part = 0
         while todo:
             part += 1
-            cf, rf = scratch.path("wc%d.%d" % (i, part)), scratch.path("wr%d.%d" % (i, part))
+            cf, rf = scratch.path("%sc%d.%d" % (subcmd, i, part)), scratch.path("%sr%d.%d" % (subcmd, i, part))
             with open(cf, "w") as f:
                 for c in todo:
                     f.write(json.dumps(c) + "\n")
-            p = subprocess.run([vh, "wrap", cf, rf], capture_output=True, text=True, timeout=1500)
+            p = subprocess.run([vh, subcmd, cf, rf], capture_output=True, text=True, timeout=3000)
             begun, done = [], {}
             if os.path.exists(rf):
                 for line in open(rf):
@@ -85,7 +85,7 @@ def run_cases(vh, scratch, cases, workers=12):
                 break
             inflight = [b for b in begun if b not in done]
             if not inflight:
-                raise C.Inconclusive("wrap worker failed outside a case: rc=%d %s" % (p.returncode, p.stderr[-1500:]))
+                raise C.Inconclusive(subcmd + " worker failed outside a case: rc=%d %s" % (p.returncode, p.stderr[-1500:]))
             cur = inflight[-1]
             first = next((l for l in p.stderr.splitlines() if l.startswith("panic:") or l.startswith("fatal error:")), p.stderr[:200])
             crashes.append((cur, first, p.stderr[-2500:]))
